@@ -516,6 +516,12 @@ using MT = eventpp::MultipleThreading;
 #endif
 
 typedef eventpp::GeneralThreading<eventpp::SpinLock, std::atomic, std::condition_variable_any> SpinT;
+// thorough depth: 8 for C10/C08/C19; 6 when the same units run under all 16 build variants for C20 (each variant repeats the search)
+#ifdef VERIF_ALLPATTERNS
+#define POOL_DT 6
+#else
+#define POOL_DT 8
+#endif
 static struct Register {
 	Register() {
 		const int patterns[] = {0xFF, 0x00, 0xA5};
@@ -528,38 +534,38 @@ static struct Register {
 #endif
 			std::string sfx = fmt("/mem%02X", patterns[pi]);
 #if SEL(0)
-			addUnit<ACallbackList<ST>, false>(VERIF_PREFIX "/CallbackList/single" + sfx, mt, c, 5, 8, 1, 1);
-			addUnit<ACallbackList<MT>, false>(VERIF_PREFIX "/CallbackList/multi" + sfx, mt, c, 5, 8, 1, 1);
+			addUnit<ACallbackList<ST>, false>(VERIF_PREFIX "/CallbackList/single" + sfx, mt, c, 5, POOL_DT, 1, 1);
+			addUnit<ACallbackList<MT>, false>(VERIF_PREFIX "/CallbackList/multi" + sfx, mt, c, 5, POOL_DT, 1, 1);
 #endif
 #if SEL(1)
-			addUnit<ADispatcher<ST>, false>(VERIF_PREFIX "/EventDispatcher/single" + sfx, mt, c, 5, 8, 1, 1);
-			addUnit<ADispatcherF<MT>, false>(VERIF_PREFIX "/EventDispatcher+filter/multi" + sfx, mt, c, 5, 8, 1, 1);
+			addUnit<ADispatcher<ST>, false>(VERIF_PREFIX "/EventDispatcher/single" + sfx, mt, c, 5, POOL_DT, 1, 1);
+			addUnit<ADispatcherF<MT>, false>(VERIF_PREFIX "/EventDispatcher+filter/multi" + sfx, mt, c, 5, POOL_DT, 1, 1);
 #endif
 #if SEL(2)
-			addUnit<AQueue<MT>, false>(VERIF_PREFIX "/EventQueue/multi" + sfx, mt, c, 5, 8, 1, 1);
+			addUnit<AQueue<MT>, false>(VERIF_PREFIX "/EventQueue/multi" + sfx, mt, c, 5, POOL_DT, 1, 1);
 			// SpinLock as the mutex: its flag has to be initialised by every constructor of every object that embeds one
-			addUnit<AQueue<SpinT>, false>(VERIF_PREFIX "/EventQueue/spinlock" + sfx, mt, c, 5, 8, 1, 1);
+			addUnit<AQueue<SpinT>, false>(VERIF_PREFIX "/EventQueue/spinlock" + sfx, mt, c, 5, POOL_DT, 1, 1);
 #endif
 #if SEL(3)
-			addUnit<AQueue<VThreading>, false>(VERIF_PREFIX "/EventQueue/vthreading" + sfx, mt, c, 5, 8, 1, 1);
-			addUnit<AQueue<MT, PF<MT> >, false>(VERIF_PREFIX "/EventQueue+filter/multi" + sfx, 1, c, 5, 8, 1, 1);
+			addUnit<AQueue<VThreading>, false>(VERIF_PREFIX "/EventQueue/vthreading" + sfx, mt, c, 5, POOL_DT, 1, 1);
+			addUnit<AQueue<MT, PF<MT> >, false>(VERIF_PREFIX "/EventQueue+filter/multi" + sfx, 1, c, 5, POOL_DT, 1, 1);
 #endif
 #if SEL(4)
-			addUnit<AHeterList<MT>, true>(VERIF_PREFIX "/HeterCallbackList/multi" + sfx, mt, c, 5, 8, 1, 1);
-			addUnit<AHeterDispatcher<ST>, true>(VERIF_PREFIX "/HeterEventDispatcher/single" + sfx, mt, c, 5, 8, 1, 1);
+			addUnit<AHeterList<MT>, true>(VERIF_PREFIX "/HeterCallbackList/multi" + sfx, mt, c, 5, POOL_DT, 1, 1);
+			addUnit<AHeterDispatcher<ST>, true>(VERIF_PREFIX "/HeterEventDispatcher/single" + sfx, mt, c, 5, POOL_DT, 1, 1);
 #endif
 #if SEL(5)
-			addUnit<AHeterQueue<MT>, true>(VERIF_PREFIX "/HeterEventQueue/multi" + sfx, mt, c, 5, 8, 1, 1);
-			addUnit<AHeterQueue<SpinT>, true>(VERIF_PREFIX "/HeterEventQueue/spinlock" + sfx, 1, c, 5, 8, 1, 1);
+			addUnit<AHeterQueue<MT>, true>(VERIF_PREFIX "/HeterEventQueue/multi" + sfx, mt, c, 5, POOL_DT, 1, 1);
+			addUnit<AHeterQueue<SpinT>, true>(VERIF_PREFIX "/HeterEventQueue/spinlock" + sfx, 1, c, 5, POOL_DT, 1, 1);
 #endif
 		}
 #if SEL(0)
 		// generation counters on different sides of the wrap (C19's extreme, copies/moves/swaps between such lists)
 #ifdef VERIF_NEARWRAP_ALL
-		for(int p = 0; p <= 4; ++p) { Cfg c; c.preset = p; c.nested = true; addUnit<ACallbackList<ST>, false>(fmt(VERIF_PREFIX "/CallbackList/single/near-wrap%d", p), 0, c, 5, 8, 1, 1); }
-		for(int p = 0; p <= 4; p += 2) { Cfg c; c.preset = p; c.nested = true; addUnit<ACallbackList<MT>, false>(fmt(VERIF_PREFIX "/CallbackList/multi/near-wrap%d", p), 1, c, 5, 8, 1, 1); }
+		for(int p = 0; p <= 4; ++p) { Cfg c; c.preset = p; c.nested = true; addUnit<ACallbackList<ST>, false>(fmt(VERIF_PREFIX "/CallbackList/single/near-wrap%d", p), 0, c, 5, POOL_DT, 1, 1); }
+		for(int p = 0; p <= 4; p += 2) { Cfg c; c.preset = p; c.nested = true; addUnit<ACallbackList<MT>, false>(fmt(VERIF_PREFIX "/CallbackList/multi/near-wrap%d", p), 1, c, 5, POOL_DT, 1, 1); }
 #else
-		for(int p = 0; p <= 2; ++p) { Cfg c; c.preset = p; c.nested = true; addUnit<ACallbackList<ST>, false>(fmt(VERIF_PREFIX "/CallbackList/single/near-wrap%d", p), p == 1 ? 0 : 1, c, 5, 8, 1, 1); }
+		for(int p = 0; p <= 2; ++p) { Cfg c; c.preset = p; c.nested = true; addUnit<ACallbackList<ST>, false>(fmt(VERIF_PREFIX "/CallbackList/single/near-wrap%d", p), p == 1 ? 0 : 1, c, 5, POOL_DT, 1, 1); }
 #endif
 #endif
 	}
